@@ -64,8 +64,8 @@ BOUND = {'quick': 'n<=4; seq L=7 (request), L=6 x 2 phases (shell), P=3; long N=
                   "3 (shell), long/ext W'=4 (request, 82944 requests) / 3 (shell), multi and shared also over {ok, 1, 2, 5 retries}",
          'thorough': 'n<=4; seq L=9 (request, get, post), L=7 x 3 phases (shell), P=4; long N=2^20+16 (request, get, post) / 2^16+16 (shell), W=10; '
                      'multi M=5 (request) / 4 (shell), lazy and upfront creation; shared S=4; tree: 49 registered query classes + 2 plain paths; wide alphabet '
-                     "(12 outcomes, up to 5 retries): rseq R=5 (request, get, post) / 4 (shell), long/ext W'=5 (request) / 4 (get, post, shell), multi and "
-                     'shared also over {ok, 1, 2, 5 retries}'}
+                     "(12 outcomes, up to 5 retries): rseq R=5 (request, get, post) / 4 (shell), long/ext W'=5 (request) / 4 (get, post, shell), multi (lazy creation) "
+                     'and shared also over {ok, 1, 2, 5 retries}'}
 ASSUMPTIONS = ['requests.request and sleep are the only environment seams of RpcNode.request',
                'attempts that follow a transient answer (5xx kind temporary / prevalidator.ml) within one call are retries of the same request',
                'a counter wrap beyond 2^16 (quick) / 2^20 (thorough) requests of one client is out of reach of enumeration']
@@ -519,7 +519,7 @@ def shards(tier, seed):
                 for create in (['lazy'] if q else ['lazy', 'upfront']):
                     for first in ([None] if q else OUTCOMES):
                         sp.append(('multi', na, nb, M, entry, create, first, 'basic'))
-                    for first in ([None] if q else ALT):
+                    for first in ([None] if q else ALT) if create == 'lazy' else []:
                         sp.append(('multi', na, nb, M, entry, create, first, 'alt'))
     # static lanes are shards[k::16]: order by cost, boustrophedon, so that the lanes are balanced
     sp.sort(key=lambda x: (-_cost(x, tier), repr(x)))
